@@ -402,12 +402,16 @@ pub mod asyncx {
     /// Runs a sequence of calls on the async dispatcher while the controller holds the
     /// background systems inside run.  ops: dispatch | running | wait | wait_without_tl |
     /// world | world_mut | setup
-    pub fn run_session(s: &mut ASession, ops: &[String], seed: u64, quiet_us: u64, hold_ms: u64) -> ExecStats {
+    pub fn run_session(s: &mut ASession, ops: &[String], seed: u64, quiet_us: u64, hold_ms: u64, panics: &[usize]) -> ExecStats {
         let ctx = s.rec.ctx.clone();
         ctx.claim_caller();
         ctx.log_exec.store(true, Ordering::Relaxed);
         ctx.setup_log.store(false, Ordering::Relaxed);
-        ctx.panic_set.lock().unwrap().clear();
+        {
+            let mut ps = ctx.panic_set.lock().unwrap();
+            ps.clear();
+            ps.extend(panics.iter().copied());
+        }
         // setup first (creates the resources), then the session proper
         s.ad.setup();
         {
